@@ -196,7 +196,10 @@ class ModuleVistor(NodeVisitor):
                 raise self.SkipNode()
 
     def visit_Module(self, node: ast.Module) -> None:
-        assert self.module.docstring is None
+        # A module that was analysed earlier may already have assigned to this
+        # module's __doc__: at run time that assignment happens after the module
+        # body has been executed, so it takes precedence over the docstring literal.
+        assigned_docstring = self.module.docstring
         Parentage().visit(node)
 
         self.builder.push(self.module, 0)
@@ -204,6 +207,9 @@ class ModuleVistor(NodeVisitor):
         if doc_node is not None:
             self.module.setDocstring(doc_node)
             epydoc2stan.extract_fields(self.module)
+        if assigned_docstring is not None:
+            self.module.docstring = assigned_docstring
+            self.module.parsed_docstring = None
 
     def depart_Module(self, node: ast.Module) -> None:
         self._infer_attr_annotations(self.builder.current)
